@@ -186,6 +186,17 @@ CLAIMED['C18'] = dict(
   note='Callbacks are opaque. Exceptional exits (host-link faults) are outside this property. The connect() documentation does not define the '
        'return value after on-release; the rule records that the default callbacks return True.',
   technique='callback typestate by CFG dominance / must-pass-through (ast)')
+CLAIMED['C06'] = dict(
+  category='other',
+  text='Decides the structural clauses of SNEP/handover fragmentation: the four fragmenters partition the octets (slice width == stride, first '
+       'slice at 0, the unfragmented threshold is the send MIU, a failed send stops the transfer); the Continue handshakes are ordered on the CFG '
+       '(remaining fragments only after Continue, Continue only when fragments are missing and before reassembly, both directions); a message '
+       'longer than the acceptable length is answered with Reject/dropped before reassembly or delivery (request handler reachable only through '
+       'the passing branch of the length test) and GET announces the limit it enforces; header formats, payload offsets and completeness tests '
+       'agree between client and server. Octet-for-octet arrival over the full stack for every MIU/RW pair is not decided.',
+  design_ref='DESIGN.md section 3 C06',
+  note='In-order exactly-once delivery of each fragment is delegated to the data link connection (C05). Trusted: SNEP 1.0 codes tabulated in the rule.',
+  technique='fragment partition + handshake ordering by CFG dominance + header format agreement (ast)')
 NA_REASON = {}
 def main():
     checks = []
